@@ -48,6 +48,8 @@ public:
     std::vector<uint64_t> rr_rank_hist;
     std::vector<uint64_t> rr_surv;
     uint64_t              rr_evictions{0}, rr_max_surv{0};
+    bool                  rr_pending{false};
+    State                 rr_pre;
 
     Monitor(const Cfg& cfg, Counters* c) : model(cfg), ctr(c)
     {
@@ -113,8 +115,15 @@ public:
         ctr->add_ev(ev);
         if (ev & (EV_EVICT | EV_EVICT_EXPIRED))
             ++ctr->full_inserts;
+        rr_pending = false;
         if (model.cfg.kind == RR && op.kind == INS && keep.size() == 1 && keep[0].victims.size() == 1)
-            rr_stat(cands[0], keep[0], now);
+            rr_stat(cands[0], keep[0].victims[0]);
+        else if (model.cfg.kind == RR && op.kind == INS && cands.size() == 1 && !keep[0].victims.empty())
+        {
+            // which resident was evicted is only known once the audit has looked: decide there
+            rr_pending = true;
+            rr_pre     = cands[0];
+        }
         else if (model.cfg.kind == RR && (op.kind == INS || op.kind == INSR))
             rr_reset_written(keep[0]);
         prev.swap(cands);
@@ -154,7 +163,30 @@ public:
             return false;
         }
         cands.swap(keep);
+        if (rr_pending)
+        {
+            rr_pending = false;
+            if (cands.size() == 1)
+            {
+                int victim = -1, n = 0;
+                for (size_t k = 0; k < rr_pre.k.size(); ++k)
+                    if (rr_pre.k[k].st == LIVE && cands[0].k[k].st != LIVE)
+                    {
+                        victim = (int)k;
+                        ++n;
+                    }
+                if (n == 1)
+                    rr_stat(rr_pre, victim);
+            }
+        }
         return true;
+    }
+
+    // A step failed before any audit was taken: the driver audits on demand and asks again, so that
+    // "size() is wrong" and "a key is missing" are told apart by what lookups actually find.
+    void explain_with_audit(const Op& op, const Res& obs, const Probe& pr, const std::vector<AuditRow>& rows, int64_t now, Violation& viol)
+    {
+        explain_all(op, obs, pr, &rows, now, viol);
     }
 
     // C15 statistical clause, evaluated at the end of a case.
@@ -201,9 +233,8 @@ private:
             if (o.st.k[i].st != LIVE)
                 rr_surv[i] = 0;
     }
-    void rr_stat(const State& pre, const Outcome& o, int64_t)
+    void rr_stat(const State& pre, int victim)
     {
-        int victim = o.victims[0];
         // rank of the victim by insertion age among the residents before the eviction
         size_t rank = 0;
         for (size_t i = 0; i < pre.k.size(); ++i)
@@ -345,6 +376,22 @@ private:
     }
 
     bool sighted(int k) const { return (size_t)k < looked_prev.size() && looked_prev[(size_t)k]; }
+    // With a victim policy in play the follower's belief about *which* keys are resident is only as good as
+    // the last audit: a result that contradicts that belief is blamed on the op only if the key (or, for
+    // whole-state results, every key) was sighted right before it.
+    bool belief_pinned(int k) const { return !kind_has_capacity(model.cfg.kind) || sighted(k); }
+    bool all_pinned() const
+    {
+        if (!kind_has_capacity(model.cfg.kind))
+            return true;
+        if (looked_prev.size() < (size_t)model.cfg.universe)
+            return false;
+        const State& s = cands.empty() ? prev[0] : cands[0];
+        for (size_t k = 0; k < looked_prev.size(); ++k)
+            if (!looked_prev[k] && s.k[k].st != EXPU)
+                return false;
+        return true;
+    }
 
     static std::string optstr(const std::optional<uint64_t>& v) { return v ? std::to_string(*v) : std::string("-"); }
 
@@ -470,6 +517,17 @@ private:
             }
         if (!result_ok)
         {
+            bool pinned = true;
+            if (op.kind == INS || op.kind == ERA)
+                pinned = belief_pinned(op.k);
+            else if (op.kind == INSR || op.kind == INSI || op.kind == ERAR || op.kind == ERAI || op.kind == AGE || op.kind == CLEAN)
+                pinned = all_pinned();
+            if (!pinned)
+            {
+                t.insert("UNATTRIBUTED.late-result");
+                d += std::string(opk_names[op.kind]) + " returned " + res_to_text(op, obs) + ", which contradicts the follower's belief about keys not sighted since the last audit; ";
+                return;
+            }
             switch (op.kind)
             {
                 case INS: {
@@ -606,7 +664,61 @@ private:
             if (!tmp.empty())
                 size_explained = true;
         }
-        if (!size_explained && t.empty())
+        if (!size_explained && op.kind == CLEAR && pr.size != 0)
+        {
+            t.insert("C20.empty");
+            d += "size() = " + std::to_string(pr.size) + " after clear(); ";
+        }
+        // With an audit at hand, "truthful size()" is judged against what the lookups really found, not against
+        // the specification's idea of the contents (a wrongly evicted key is a retention failure, not a size failure).
+        bool size_judged_by_audit = false;
+        if (!size_explained && audit && kind_has_capacity(c.kind))
+        {
+            bool     all = true;
+            uint64_t found = 0;
+            int      umax  = 0;
+            for (size_t k = 0; k < audit->size(); ++k)
+            {
+                if (!(*audit)[k].looked)
+                {
+                    if (P.k[k].st != EXPU)
+                        all = false;
+                    continue;
+                }
+                if ((*audit)[k].val)
+                    ++found;
+            }
+            for (auto& o : keep)
+                umax = std::max(umax, o.st.ucount());
+            if (all)
+            {
+                size_judged_by_audit = true;
+                if (!model.ttl())
+                {
+                    if (pr.size != found)
+                    {
+                        t.insert("C02.count");
+                        d += "size() = " + std::to_string(pr.size) + " but lookups find " + std::to_string(found) + " keys; ";
+                    }
+                }
+                else if (pr.size < found || pr.size > found + (uint64_t)std::max(umax, r_pre))
+                {
+                    t.insert("C02.ttl-range");
+                    d += "size() = " + std::to_string(pr.size) + " outside [found, found + expired-unreaped] with " + std::to_string(found) + " keys found; ";
+                }
+                if (single_new_insert && was_full && pr.size != (uint64_t)c.cap)
+                {
+                    t.insert("C03.size-after");
+                    d += "insert of a new key into a full cache left size() = " + std::to_string(pr.size) + "; ";
+                }
+                if (op.kind == CLEAN && model.ttllru() && pr.size != found)
+                {
+                    t.insert("C17.complete");
+                    d += "size() = " + std::to_string(pr.size) + " after clean_expired_values with " + std::to_string(found) + " live keys found; ";
+                }
+            }
+        }
+        if (!size_explained && t.empty() && !size_judged_by_audit)
         {
             int live_after = keep[0].st.live();
             if (!model.ttl())
